@@ -39,6 +39,7 @@ type StartOpts struct {
 	NoListen bool
 	Race     bool
 	Prefix   string // shell words placed before fzf (e.g. "strace -f ...")
+	Listen   string // --listen argument (default 127.0.0.1:0)
 	Cwd      string
 }
 
@@ -70,18 +71,19 @@ type TraceEvent struct {
 }
 
 type Session struct {
-	Dir      string
-	Sock     string
-	Port     int
-	Opts     StartOpts
-	Posted   int // batches accepted by the server (HTTP 200)
-	trace    []TraceEvent
-	traceF   *os.File
-	traceRd  *bufio.Reader
-	partial  string
-	closed   bool
-	PanePid  int
-	LastWait string // why the last WaitQuiescent poll was not satisfied
+	Dir           string
+	Sock          string
+	Port          int
+	Opts          StartOpts
+	Posted        int // batches accepted by the server (HTTP 200)
+	trace         []TraceEvent
+	traceF        *os.File
+	traceRd       *bufio.Reader
+	partial       string
+	closed        bool
+	PanePid       int
+	LastWait      string // why the last WaitQuiescent poll was not satisfied
+	ListenAddrHex string // local address of the listening socket as in /proc/net/tcp (0100007F = 127.0.0.1)
 }
 
 var sessionCounter int64
@@ -160,7 +162,11 @@ func start1(o StartOpts) (*Session, error) {
 	args := append([]string{}, o.Args...)
 	if !o.NoListen {
 		// fzf picks a free port itself; the harness finds it through /proc (no probing races)
-		args = append(args, "--listen", "127.0.0.1:0")
+		spec := o.Listen
+		if spec == "" {
+			spec = "127.0.0.1:0"
+		}
+		args = append(args, "--listen", spec)
 	}
 	var words []string
 	for _, a := range args {
@@ -270,6 +276,7 @@ func (s *Session) listenPort() int {
 			}
 			if i := strings.LastIndex(fl[1], ":"); i >= 0 {
 				if p, err := strconv.ParseInt(fl[1][i+1:], 16, 32); err == nil {
+					s.ListenAddrHex = fl[1][:i]
 					return int(p)
 				}
 			}
